@@ -515,7 +515,22 @@ def sc_argmax(n, c, s):
         raise _Done()
 
 
+def sc_index_stride_full(n, c, st, p):
+    """x[::st] over the whole array: selection op + merge_chunks op (fused by the default optimizer)"""
+    _start()
+    sx.assume(c <= n)
+    x = G.stub_array("x", (n,), (c,))
+    st_ = sx.conc(st)
+    out = x[::st_]
+    length = len(range(0, sx.conc(n), st_))
+    _declared_ok(out, (length,))
+    sx.assume(p < length)
+    t, _ = _elem(out, (p,))
+    _expect(t, ("elem", "x", (p * st_,)))
+
+
 EXTRA_SCENARIOS = {
+    "index[::step]": (sc_index_stride_full, lambda N: [("n", 1, 4 * N), ("c", 1, N + 3), ("st", 2, 3), ("p", 0, 4 * N)]),
     "linalg.qr": (sc_qr, lambda N: [("n", 1, N + 2), ("m", 1, 3), ("c", 1, N + 2)]),
     "reshape[2d->1d]": (sc_reshape_2d_to_1d, lambda N: [("n", 1, N), ("m", 1, 3), ("c", 1, N)]),
     "matmul": (sc_matmul, lambda N: [("n", 1, 4 if N <= 6 else 6), ("k", 1, 3), ("m", 1, 2), ("c", 1, 4 if N <= 6 else 6), ("ck", 1, 3)]),
